@@ -58,6 +58,9 @@ def shards(tier):
             out.append({'T': tu, 'w': wu, 'cur': None})
             for (u0, um) in cu:
                 out.append({'T': tu, 'w': wu, 'cur': [u0, um], 'i0s': i0s, 'imaxs': imaxs})
+    for cu in (['A', 'A'], ['mA', 'A']):
+        for (a, b) in ((0.1, 2.0), (0.7, 3.0), (0.0, 1.5)):
+            out.append({'mode': 'history', 'T': T_UNITS[0], 'w': W_UNITS[1], 'cur': cu, 'i0': a, 'imax': b})
     return out
 
 
@@ -191,7 +194,106 @@ def check_point(acc, Tspec, wspec, cur_units, i0v, imaxv, ratio, D, tag, speed_u
     return (Tq.value, Iq.value)
 
 
+# -- operation histories on ONE motor instance ----------------------------------------------------------
+H_DUTIES = [1, 0.5, -0.5, 0.02, -1]
+H_SPEEDS = [0.0, 0.5, -0.25]
+H_TORQUES = [0.3, -0.2]
+
+
+def history_events():
+    ev = [('D', d) for d in H_DUTIES] + [('w', r) for r in H_SPEEDS] + [('T', t) for t in H_TORQUES]
+    return ev + [('computeT',), ('computeI',)]
+
+
+def run_history(acc, Tspec, wspec, cu, i0v, imaxv, hist, judge_all=True):
+    """hist: list of event indices.  After every compute step the attribute just computed must be the documented
+    function of the motor's CURRENT duty cycle, speed and (for the current) driving torque attribute."""
+    ev = history_events()
+    i0q = (si.convert(i0v, 'Current', 'A', cu[0]), cu[0])
+    imq = (si.convert(imaxv, 'Current', 'A', cu[1]), cu[1])
+    motor = make_motor(Tspec, wspec, i0q, imq)
+    Tmax = si.si(Tspec[1], 'Torque', Tspec[0])
+    w0 = si.si(wspec[1], 'AngularSpeed', wspec[0])
+    i0, imax = si.si(*i0q[:1], 'Current', i0q[1]), si.si(imq[0], 'Current', imq[1])
+    D, w, T = 1, None, None
+    case = {'kind': 'history', 'T': list(Tspec), 'w': list(wspec), 'cur': cu, 'i0': i0v, 'imax': imaxv, 'hist': list(hist)}
+    for step, ei in enumerate(hist):
+        e = ev[ei]
+        last = step == len(hist) - 1
+        try:
+            if e[0] == 'D':
+                motor.pwm = e[1]
+                D = e[1]
+            elif e[0] == 'w':
+                motor.angular_speed = AngularSpeed(e[1] * wspec[1], wspec[0])
+                w = e[1] * w0
+            elif e[0] == 'T':
+                motor.driving_torque = Torque(e[1] * Tmax, 'Nm')
+                T = e[1] * Tmax
+            elif e[0] == 'computeT':
+                if w is None:
+                    return 'skip'
+                motor.compute_torque()
+                T = si.q_si(motor.driving_torque)
+                if judge_all or last:
+                    ref_T = ref.motor_torque(Tmax, w0, D, w, i0, imax)
+                    if not si.close(T, ref_T, 1e-9, Tmax * 1e-9):
+                        acc.violation('C08/history/torque', 'torque = law(current duty cycle, current speed) whatever was computed before', case,
+                                      {'step': step, 'got': T, 'ref': ref_T, 'D': D, 'w': w})
+                        return 'violation'
+            else:
+                if T is None:
+                    return 'skip'
+                motor.compute_electric_current()
+                if judge_all or last:
+                    I = si.q_si(motor.electric_current)
+                    ref_I = ref.motor_current_from_torque(Tmax, D, T, i0, imax)
+                    if not si.close(I, ref_I, 1e-9, imax * 1e-9):
+                        acc.violation('C08/history/current', 'current = law(current duty cycle, driving torque attribute) whatever was computed before', case,
+                                      {'step': step, 'got': I, 'ref': ref_I, 'D': D, 'T': T})
+                        return 'violation'
+        except Exception as ex:
+            acc.violation(f'C08/history/exception/{type(ex).__name__}', 'no exception in the domain', case, {'step': step, 'exc': repr(ex)[:200]})
+            return 'violation'
+    return (D, w, T)
+
+
+def explore_histories(acc, Tspec, wspec, cu, i0v, imaxv, depth):
+    """BFS over event sequences; the state of a motor is (duty, speed, driving torque, whether a torque/current was computed)."""
+    ev = history_events()
+    seen = set()
+    frontier = [[]]
+    for d in range(depth):
+        nxt = []
+        for h in frontier:
+            for ei in range(len(ev)):
+                h2 = h + [ei]
+                r = run_history(acc, Tspec, wspec, cu, i0v, imaxv, h2, judge_all=False)
+                acc.transitions += 1
+                acc.executions += 1
+                if r in ('skip', 'violation'):
+                    continue
+                # canon keeps the last compute steps' duty cycles too: a stale cache depends on them
+                comp = tuple((ev[i][0], k) for k, i in enumerate(h2) if ev[i][0].startswith('compute'))[-2:]
+                lastD = tuple(ev[i][1] for i in h2 if ev[i][0] == 'D')[-2:]
+                key = (r, tuple(c[0] for c in comp), lastD, ev[ei][0])
+                if key not in seen:
+                    seen.add(key)
+                    acc.state(('hist', cu[0], cu[1], i0v, imaxv) + key)
+                    nxt.append(h2)
+        frontier = nxt
+    return len(seen)
+
+
 def run_shard(shard, tier):
+    if shard.get('mode') == 'history':
+        acc = Acc()
+        depth = 5 if tier == 'quick' else 6
+        n = explore_histories(acc, tuple(shard['T']), tuple(shard['w']), shard['cur'], shard['i0'], shard['imax'], depth)
+        acc.sample({'mode': 'operation histories on one motor instance', 'events': [list(e) for e in history_events()],
+                    'depth': depth, 'distinct_states': n, 'i0_A': shard['i0'], 'imax_A': shard['imax'], 'cur_units': shard['cur']})
+        acc.cases += acc.executions
+        return acc
     acc = Acc()
     Tspec, wspec = tuple(shard['T']), tuple(shard['w'])
     speed_units = [wspec[0]] + (['rpm'] if wspec[0] != 'rpm' else ['rad/s'])
@@ -252,6 +354,8 @@ def replay(case):
     if case['kind'] == 'point':
         check_point(acc, tuple(case['T']), tuple(case['w']), case['cur'], case['i0'], case['imax'],
                     case['ratio'], case['D'], case['tag'], case['speed_unit'])
+    elif case['kind'] == 'history':
+        run_history(acc, tuple(case['T']), tuple(case['w']), case['cur'], case['i0'], case['imax'], case['hist'])
     elif case['kind'] == 'parity':
         cu = case['cur']
         m1 = make_motor(tuple(case['T']), tuple(case['w']),
